@@ -405,7 +405,10 @@ run_batch(const BatchCfg &cfg, const CaseSource &src, JW *extra_cov)
                 pid_t pid = fork();
                 if (pid == 0) {
                         WorkerOut out;
+                        bool stop_worker = false;
                         for (;;) {
+                                if (stop_worker)
+                                        break;
                                 uint64_t i = __atomic_fetch_add(next_idx, 1, __ATOMIC_RELAXED);
                                 if (i >= cfg.runs)
                                         break;
@@ -483,6 +486,8 @@ run_batch(const BatchCfg &cfg, const CaseSource &src, JW *extra_cov)
                                         // gate 1: same plan again in-process, same log hash and same violation
                                         // (a hang costs the watchdog time on every execution: re-run once, do not shrink)
                                         const bool hang = v.oracle == "hang";
+                                        if (hang)
+                                                stop_worker = true; // every further hang would cost the watchdog time again
                                         RunResult r2 = exec_case(p, src);
                                         if ((!hang && r2.log_hash != r.log_hash) || !find_viol(r2, v))
                                                 rec.gate_ok = false;
